@@ -22,11 +22,22 @@ def gen_history(rng, case, n_ops, change_ops=True):
     vals = [unbits(b) for b in case["vals"]]
     errs = [unbits(b) for b in case["errs"]]
     nm = case["n_meas"]
-    qn = quantity_nodes(case)
+    pending = list(case.get("late") or [])
+    qn = [x for x in quantity_nodes(case) if x not in pending]
     ops = []
     rho = {}
+    scen = case.setdefault("scenarios", [])
     for _ in range(n_ops):
         r = rng.random()
+        if pending and rng.random() < 0.12:
+            # a NEW result is created in the middle of the session (here: the same operator applied
+            # again to the very same operand objects), possibly while another method is in force
+            t_ = pending.pop(0)
+            qn.append(t_)
+            ops.append(["create", t_])
+            if rng.random() < 0.5:
+                ops.append(["read", t_])
+            continue
         n = rng.choice(qn[-3:]) if rng.random() < 0.7 else rng.choice(qn)
         if change_ops and r < 0.14:
             i = rng.randrange(nm)
@@ -68,6 +79,10 @@ def gen_history(rng, case, n_ops, change_ops=True):
         elif change_ops and r < 0.30:
             rho.clear()
             ops.append(["resetCorr"])
+        elif not change_ops and r < 0.34:
+            # (toggle histories) the judged read next to the same formula built afresh from the
+            # same measurements and correlations: an oracle that does not go through the model
+            ops.append(["readFresh", n])
         elif r < 0.55:
             ops.append(["read", n])
         elif r < 0.65:
@@ -89,6 +104,57 @@ def gen_history(rng, case, n_ops, change_ops=True):
             ops.append(["fault"])
         else:
             ops.append(["newGroup"])
+    for t_ in pending:
+        ops.append(["create", t_])
+        ops.append(["read", t_])
+        qn.append(t_)
+    pending = []
+    if rng.random() < 0.35:
+        # deliberate scenario: "returns to the global setting when its own selection is reset" is a
+        # statement about LATER switches of the global setting too: own selection, reset (either
+        # form), then the session's method is switched and the quantity is read (and, where sources
+        # may change, changed + recalculated + read)
+        n = rng.choice(qn[-3:])
+        g0 = rng.choice(["derivative", "monte-carlo"])
+        g1 = "monte-carlo" if g0 == "derivative" else "derivative"
+        ops.append(["setGlobal", g0])
+        ops.append(["setMethod", n, rng.choice([g0, g1])])
+        if rng.random() < 0.5:
+            ops.append(["read", n])
+        want_form = rng.choice(["method", "method", "auto"])
+        # run_impl picks the form of a reset by the parity of its position: pad with a read
+        if ((len(ops) + 1) % 2 == 1) != (want_form == "method"):
+            ops.append(["read", n])
+        ops.append(["resetMethod", n])
+        if rng.random() < 0.5:
+            ops.append(["read", n])
+        ops.append(["setGlobal", g1])
+        ops.append(["read", n])
+        if rng.random() < 0.5:
+            ops.append(["recalc", n])
+            ops.append(["read", n])
+        if rng.random() < 0.4:
+            ops.append(["setGlobal", g0])
+            ops.append(["read", n])
+        scen.append("reset-then-global-switch:" + want_form)
+    if not change_ops and rng.random() < 0.5:
+        # deliberate scenario: a Monte Carlo read of one result (own selection or global setting),
+        # then the FIRST derivative read of a result that has nothing buffered (recalculated, or a
+        # twin created now), next to the formula built afresh
+        dp = _deps(case)
+        both = [x for x in qn if any(r_[0] in dp[x] and r_[1] in dp[x] for r_ in case["rho"])]
+        n = rng.choice(both or qn[-3:])
+        route = rng.choice(["node", "global"])
+        ops.append(["setMethod", n, "monte-carlo"] if route == "node" else ["setGlobal", "monte-carlo"])
+        if route == "global":
+            ops.append(["resetMethod", n])
+        ops.append(["read", n])
+        n2 = rng.choice(both or qn[-3:])
+        ops.append(["recalc", n2])
+        ops.append(["setGlobal", "derivative"])
+        ops.append(["setMethod", n2, "derivative"])
+        ops.append(["readFresh", n2])
+        scen.append("mc-read-then-first-derivative-read:" + route)
     if change_ops and nm >= 2 and rng.random() < 0.3:
         # deliberate scenario: two correlated sources OF ONE RESULT, the uncertainty of one of them
         # (a negative reading if there is one) revised as a relative uncertainty, then recalculation
@@ -153,6 +219,15 @@ def gen_history(rng, case, n_ops, change_ops=True):
     return ops
 
 
+def _deps(case):
+    """node -> set of source measurements its formula contains"""
+    deps = {}
+    for k, nd in enumerate(case["nodes"]):
+        deps[k] = {nd[1]} if nd[0] == "var" else set() if nd[0] in ("const", "pair") else \
+            set().union(*[deps[j] for j in nd[2:]])
+    return deps
+
+
 def gen_case(rng, n_ops, change_ops=True):
     while True:
         c = exprgen.gen_case(rng, max_ops=5, max_meas=4, allow_pairs=False, allow_corr=False)
@@ -179,6 +254,38 @@ def gen_case(rng, n_ops, change_ops=True):
             i = rng.choice(direct)
             c["errs"][i] = bits(abs(unbits(c["vals"][i])) * rng.uniform(0.45, 0.8))
             c["wide"] = i
+        c["scenarios"] = []
+        # TWINS: the same operator applied a second time to the very same operand objects (a new
+        # result of the same formula: its selection and buffers are its own); some of them are made
+        # in the middle of the history ("creation of new results")
+        c["twins"], c["late"] = {}, []
+        if rng.random() < 0.5:
+            for _ in range(rng.randint(1, 2)):
+                p = rng.choice(quantity_nodes(c))
+                c["nodes"].append(list(c["nodes"][p]))
+                c["twins"][str(len(c["nodes"]) - 1)] = p
+                if rng.random() < 0.6:
+                    c["late"].append(len(c["nodes"]) - 1)
+            c["scenarios"].append("twin-result")
+            if c["late"]:
+                c["scenarios"].append("result-created-mid-history")
+        if not change_ops and c["n_meas"] >= 2 and rng.random() < 0.5:
+            # "a function of ... correlations": toggle histories also run on correlated sources,
+            # incl. the boundary factors +1 / -1 the setters accept (one pair, or two disjoint
+            # pairs: positive semi-definite by construction)
+            idx = list(range(c["n_meas"]))
+            rng.shuffle(idx)
+            # prefer two sources that meet in one result
+            dp = _deps(c)
+            joint = [sorted(dp[n]) for n in quantity_nodes(c) if len(dp[n]) >= 2]
+            if joint:
+                first = rng.sample(rng.choice(joint), 2)
+                idx = first + [x for x in idx if x not in first]
+            pairs = [idx[0:2]] + ([idx[2:4]] if len(idx) >= 4 and rng.random() < 0.4 else [])
+            for i, j in pairs:
+                rr = rng.choice([1.0, -1.0]) if rng.random() < 0.45 else round(rng.uniform(-0.9, 0.9), 3)
+                c["rho"].append([i, j, bits(rr)])
+                c["scenarios"].append("correlated-sources:" + ("boundary" if abs(rr) == 1.0 else "regular"))
         c["ops_hist"] = gen_history(rng, c, n_ops, change_ops)
         c["units"] = [rng.choice(UNITS) for _ in range(c["n_meas"])]
         return c
@@ -200,16 +307,20 @@ def run_impl(q, case, np_seed=1, mc_size=50, string_forms=True):
             for m, u in zip(meas, case.get("units", [])):
                 m.unit = u
             for o in quantity_nodes(case):
-                objs[o].recalculate()          # units were assigned after construction
-            if len({id(objs[o]) for o in quantity_nodes(case)}) != len(quantity_nodes(case)):
-                raise AssertionError("two different operations returned the same result object")
+                if objs[o] is not None:
+                    objs[o].recalculate()          # units were assigned after construction
+            made = [objs[o] for o in quantity_nodes(case) if objs[o] is not None]
+            if len({id(x) for x in made}) != len(made):
+                # judged through the reads first (own selection of one must not show on the
+                # other); reported as such only when no read fails (run)
+                SHARED[id(case)] = True
         except Exception as e:  # noqa: BLE001
             reset(q)
             return [{"t": "exception", "x": "{}: {} (while building the formulas)".format(
                 type(e).__name__, e)}]
         vals = [unbits(b) for b in case["vals"]]
         errs = [unbits(b) for b in case["errs"]]
-        rho = []
+        rho = [list(r) for r in case["rho"]]
         other = q.Measurement(1.5, 0.2)
         k = 0
         for op in case["ops_hist"]:
@@ -319,6 +430,12 @@ def run_impl(q, case, np_seed=1, mc_size=50, string_forms=True):
                     f.error_method = "derivative"
                     ob["fresh"] = {"v": float(f.value), "e": float(f.error)}
                     obs.append(ob)
+                elif t == "create":
+                    new = exprgen.build_node(q, case, objs, op[1])
+                    if any(new is x for x in objs):
+                        SHARED[id(case)] = True
+                    objs[op[1]] = new
+                    obs.append({"t": "ok"})
                 elif t == "setSize":
                     objs[op[1]].mc.sample_size = op[2]
                     obs.append({"t": "ok"})
@@ -361,6 +478,7 @@ def run_impl(q, case, np_seed=1, mc_size=50, string_forms=True):
 
 
 _last_meas = []
+SHARED = {}      # id(case) -> two operations of the case returned the same result object
 
 
 def _rebuild_with_units(q, c2, units):
@@ -402,7 +520,7 @@ def model_line(case):
     # a failed side computation is not an operation of the session state machine
     ops = []
     for o in case["ops_hist"]:
-        if o[0] in ("fault", "newGroup"):
+        if o[0] in ("fault", "newGroup", "create"):
             o = ["readDeriv", quantity_nodes(case)[0], 0]
         elif o[0] == "readFresh":
             o = ["read", o[1]]
@@ -433,8 +551,34 @@ def judge(what, case, obs, mod):
     nested = {i for i in quantity_nodes(case)
               if any(case["nodes"][j][0] in ("un", "bin", "deg") for j in case["nodes"][i][2:])}
     model_failed = False    # after a model disagreement only the independent oracle keeps judging
+    # the harness's own reading of the selection rule (independent of library and model): a
+    # quantity reports by its own selection if one is set, otherwise by the global setting
+    own_sel, glob_sel = {}, "derivative"
     for k, (op, o, m) in enumerate(zip(case["ops_hist"], obs, outs)):
         where = "op {} {}".format(k, op[0])
+        if o["t"] != "exception":
+            if op[0] == "setGlobal":
+                glob_sel = op[1]
+            elif op[0] == "setMethod":
+                own_sel[op[1]] = op[2]
+            elif op[0] == "resetMethod":
+                own_sel.pop(op[1], None)
+        if op[0] in ("read", "readFresh") and o["t"] == "read" and not model_failed:
+            want2 = own_sel.get(op[1], glob_sel)
+            if o["method"] != want2:
+                failures.append({"signature": "{}:effective-method".format(what),
+                                 "oracle": "independent", "kind": "violation",
+                                 "what": "{}: the quantity reports by {} but its own selection is {} "
+                                         "and the global setting is {} (selection rule evaluated by "
+                                         "the harness from the requests of the history)".format(
+                                             where, o["method"], own_sel.get(op[1], "not set / reset"),
+                                             glob_sel),
+                                 "input": hist_str(case), "case": case, "op_index": k,
+                                 "carries_history": True,
+                                 "clause": "own selection if set, otherwise the global setting; "
+                                           "returns to the global setting after a reset"})
+                model_failed = True
+                continue
         if model_failed and op[0] != "recalc":
             continue
         if o["t"] == "exception":
@@ -461,11 +605,13 @@ def judge(what, case, obs, mod):
             f = o["fresh"]
             if not (abs(o["v"] - f["v"]) <= 1e-9 * (abs(o["v"]) + abs(f["v"])) + 1e-300 and
                     abs(o["e"] - f["e"]) <= 1e-9 * (abs(o["e"]) + abs(f["e"])) + 1e-300):
-                failures.append({"signature": "{}:stale-after-recalculate".format(what),
+                failures.append({"signature": "{}:{}".format(what, "stale-after-recalculate" if what == "c05"
+                                                              else "derivative-read-not-afresh"),
                                  "oracle": "independent", "kind": "violation",
-                                 "what": "{}: the result was recalculated after the last change "
-                                         "(while another method was in force) but reads ({}, {}); "
-                                         "the same formula built afresh gives ({}, {})".format(
+                                 "what": "{}: the derivative-method read (nothing changed since the last "
+                                         "recalculation / creation) is ({}, {}); "
+                                         "the same formula built afresh from the same measurements "
+                                         "and correlations gives ({}, {})".format(
                                              where, o["v"], o["e"], f["v"], f["e"]),
                                  "input": hist_str(case), "case": case, "op_index": k,
                                  "clause": "recalculate brings value and uncertainty up to date"})
@@ -582,7 +728,13 @@ def run(ctx, what, n_cases, n_ops, ref=False, cases=None):
     for c, o, m, s in zip(cases, obs, mods, seeds):
         for op in c["ops_hist"]:
             dist["op:" + op[0]] += 1
+        for sc in c.get("scenarios") or []:
+            dist["scenario:" + sc] += 1
         fs, nt, sk = judge(what, c, o, m)
+        if SHARED.pop(id(c), False) and not fs and not sk:
+            fs.append({"signature": "{}:exception:{}:AssertionError".format(what, c["ops_hist"][0][0]),
+                       "what": "two different operations returned the same result object",
+                       "input": hist_str(c), "case": c, "clause": "creation of new results"})
         if sk:
             skipped += 1
             continue
